@@ -5,6 +5,7 @@ on Config.backup ...) rather than by function name, so that extracting, merging,
 functions does not change a verdict."""
 from cfg import cfg_of, defuse, place_fields, callee_orig, callee_path
 import inline
+import re
 import q
 from names import *
 
@@ -78,6 +79,10 @@ def stop_set(fx):
     # libfs's public functions are the primitives libxcp is written against
     for p, f in fx.fns.items():
         if f.crate == "libfs" and (f.raw.get("exported") or f.raw.get("reachable")) and not f.is_closure:
+            # (a generic export that takes a callable -- `copy_data_segments(.., |n| ..)` -- is a control-flow helper,
+            # not a primitive: it is inlined so that the closure runs in its caller's flow)
+            if any(re.match(r"^(&mut |&)?[A-Z][A-Za-z0-9]*$", f.locals[i]["ty"]) for i in range(1, f.argc + 1)):
+                continue
             st.add(p)
     # trait-object / driver entry points and the updater implementations are role boundaries, not helpers
     for p in fx.fns:
